@@ -775,6 +775,10 @@ func runC09(c *Ctx) {
 	r.Floor("use-after-release", nrel, 50, "release sites")
 	c09ResultOwned(c, p)
 	c09CapturedNode(c, p)
+	r.Rule("memoised-node", "a value memoised by sync.OnceValue / OnceValues whose type is an AST node is used only as the argument of a copying function (clone…, copy…, deepCopy…) or in a nil test")
+	if nm := c09MemoisedNode(c, p, p.ModuleFuncs(), nil); nm == 0 {
+		r.OK("memoised-node", "scan", "-", "no AST node is memoised with sync.OnceValue / OnceValues")
+	}
 	r.Rule("guard-field-match", "in the release functions of pkg/sql/ast (Put…, Release…), the child released under `if x.A != nil` is x.A: a branch that tests one field and queues or releases another, untested, one releases that node twice and leaks the tested one")
 	ng := guardFieldMatch(c, p, "guard-field-match", []string{"pkg/sql/ast"}, func(f *ssa.Function) bool {
 		return strings.HasPrefix(outer(f).Name(), "Put") || strings.HasPrefix(outer(f).Name(), "Release")
@@ -798,6 +802,9 @@ func runC09(c *Ctx) {
 			}
 			_, uf := useAfterReleaseRule(&sub, cp, cfns, "use-after-release", true)
 			r.Control("use-after-release", uf, "controls/c09 useAfterPut")
+			mf := map[string]bool{}
+			c09MemoisedNode(&sub, cp, cfns, mf)
+			r.Control("memoised-node", mf["c09.sharedMemo|once#1"] && !mf["c09.copiedMemo|once#1"], "controls/c09 sharedMemo (memoised node linked into every holder) and copiedMemo (cloned on every use)")
 		}
 	}
 }
